@@ -375,7 +375,7 @@ pub fn cell(spec: &Value) -> Value {
 pub fn check(tier: Tier) -> Outcome {
     let ns = server_units().len();
     let nc = client_units().len();
-    let depth = if tier == Tier::Quick { 3 } else { 4 };
+    let depth = if tier == Tier::Quick { 3 } else { 5 };
     let mut cells = vec![json!({"client": false, "prefix": [], "more": 0}), json!({"client": true, "prefix": [], "more": 0})];
     for i in 0..ns {
         cells.push(json!({"client": false, "prefix": [i], "more": depth - 1}));
@@ -384,19 +384,19 @@ pub fn check(tier: Tier) -> Outcome {
         cells.push(json!({"client": true, "prefix": [i], "more": depth - 1}));
     }
     if tier == Tier::Thorough {
-        // depth 5 (server) / 5 (client) on the directory + switch sub-alphabet
+        // depth 6 on the directory + switch sub-alphabet
         let su = server_units();
         let sub_s: Vec<usize> = (0..su.len()).filter(|i| matches!(su[*i][0].as_str(), "-s" | "--single-port" | "-r" | "--read-only" | "--overwrite" | "--keep-on-error" | "-d" | "--directory" | "-rd" | "--receive-directory" | "-sd" | "--send-directory") && su[*i].len() >= 1 && !(su[*i].len() == 1 && su[*i][0].starts_with("-d")) ).filter(|i| su[*i].len() == 2 || !matches!(su[*i][0].as_str(), "-d" | "-rd" | "-sd")).collect();
         for &i in &sub_s {
             for &j in &sub_s {
-                cells.push(json!({"client": false, "prefix": [i, j], "more": 3, "allowed": sub_s}));
+                cells.push(json!({"client": false, "prefix": [i, j], "more": 4, "allowed": sub_s}));
             }
         }
         let cu = client_units();
         let sub_c: Vec<usize> = (0..cu.len()).filter(|i| cu[*i].len() == 1 && !cu[*i][0].starts_with("-i") && !matches!(cu[*i][0].as_str(), "-p" | "-b" | "-w" | "-t" | "-rd") || (cu[*i].len() == 2 && matches!(cu[*i][0].as_str(), "-rd" | "--receive-directory"))).collect();
         for &i in &sub_c {
             for &j in &sub_c {
-                cells.push(json!({"client": true, "prefix": [i, j], "more": 3, "allowed": sub_c}));
+                cells.push(json!({"client": true, "prefix": [i, j], "more": 4, "allowed": sub_c}));
             }
         }
     }
@@ -404,7 +404,7 @@ pub fn check(tier: Tier) -> Outcome {
     let res = run_cells("c17", cells, &crate::pool_opts(tier));
     let mut out = Outcome::new("C17", "model_checking");
     out.absorb(res, n);
-    out.rule = format!("all argument vectors of <= {depth} flag units over {ns} server units / {nc} client units (every value flag in short and long spelling with valid value, invalid value, and as last argument; every switch in both spellings; unknown flag; bare word; existing and missing directories){}. Each vector goes through the real Config::new / ClientConfig::new and is compared field by field with a reference parser written from the statement; vectors whose units touch pairwise different settings are additionally compared with their sorted permutation (model-free order independence). non-trivial = vectors that yield a configuration. states = vectors, transitions = parser calls.", if tier == Tier::Thorough { "; depth 5 on the directory+switch sub-alphabet" } else { "" });
+    out.rule = format!("all argument vectors of <= {depth} flag units over {ns} server units / {nc} client units (every value flag in short and long spelling with valid value, invalid value, and as last argument; every switch in both spellings; unknown flag; bare word; existing and missing directories){}. Each vector goes through the real Config::new / ClientConfig::new and is compared field by field with a reference parser written from the statement; vectors whose units touch pairwise different settings are additionally compared with their sorted permutation (model-free order independence). non-trivial = vectors that yield a configuration. states = vectors, transitions = parser calls.", if tier == Tier::Thorough { "; depth 6 on the directory+switch sub-alphabet" } else { "" });
     out.assumptions = vec!["-h/--help is excluded (it calls process::exit)".into(), "client: argv[0] is not a bare word; when no file is named the file_path field is not compared; unknown flags are not in the client alphabet (the client treats them as file names, the statement's error list is the server's)".into()];
     out
 }
